@@ -5,7 +5,7 @@
 (* CLI) on a scenario exported from PretextView.tla.  The clauses of RemapProps.tla are evaluated   *)
 (* on the recorded real outputs; Props selects which properties' clauses are evaluated.             *)
 (***************************************************************************************************)
-EXTENDS NamingProps, Remap, Json, IOUtils, TLCExt
+EXTENDS NamingProps, RemapNaming, Json, IOUtils, TLCExt
 CONSTANT Props
 Traces == JsonDeserialize(IOEnv.TRACE_FILE)
 ASSUME TLCSet(1, 0) /\ TLCSet(2, 0) /\ TLCSet(3, 0) /\ TLCSet(4, 0) /\ TLCSet(5, 0) /\ TLCSet(6, 0)
@@ -60,6 +60,16 @@ J10(T) == ("C10" \in Props /\ Ok(T)) =>
   /\ (HaplotigsNamedAndSorted(T) \/ Say(T, "C10.haplotigs_named_and_sorted", T.cls))
   /\ (~AutosomesDense(T) \/ OutputOrder(T) \/ Say(T, "C10.output_order", T.cls))
   /\ ((CsvPresent(T) /\ CsvMatches(T)) \/ Say(T, "C10.chromosome_csv", T.cls))
+\* M-clause "naming": assembly key, name, rank and rows of every output scaffold as the naming-layer model (RemapNaming.tla) predicts;
+\* single-haplotype (plain-named) scenarios only
+JNaming(T) == ("MODEL" \in Props /\ T.style = "plain" /\ T.status # "hang" /\ T.valid = 1) =>
+  LET m == PipelineN(T.input, T.map, ErrLenT(T), TRUE, TRUE, TRUE)
+      pfx == IF "prefix" \in DOMAIN T THEN T.prefix ELSE "SUPER_"
+      mo == {[asm |-> IF m.out[q].asm = "none" THEN "" ELSE m.out[q].asm, name |-> RenderName(m.out[q].name, m.out[q].rank, pfx), rank |-> m.out[q].rank,
+              rows |-> m.out[q].rows] : q \in 1..Len(m.out)}
+      ro == {[asm |-> T.out[q].asm, name |-> T.out[q].name, rank |-> T.out[q].rank, rows |-> T.out[q].rows] : q \in 1..Len(T.out)}
+  IN /\ (m.ok = Ok(T) \/ PrintT(<<"M", T.tid, "naming_status", T.cls>>))
+     /\ (~(m.ok /\ Ok(T)) \/ (mo = ro /\ Len(m.out) = Len(T.out)) \/ PrintT(<<"M", T.tid, "naming", T.cls>>))
 \* M-clause: the code follows the implementation-shaped pipeline model (Remap.tla): same completion status, same number of cuts,
 \* same scaffolds (row sequences; names and order are the naming layer's business).  Untagged, plain-named scenarios only.
 Untagged(T) == \A x \in AllPieces(T) : T.map[x[1]].pieces[x[2]].tags = <<>> /\ T.map[x[1]].pieces[x[2]].src # "Nowhere"
@@ -74,7 +84,7 @@ J11(T) == ("C11" \in Props /\ Ok(T)) =>
   /\ (T.stats.cuts = CutsDef(T) \/ Say(T, "C11.cuts", Cls(T)))
   /\ (T.stats.breaks = BreaksDef(T) \/ Say(T, "C11.breaks", Cls(T)))
   /\ (T.stats.joins = JoinsDef(T) \/ Say(T, "C11.joins", Cls(T)))
-Judge(T) == Count(1, 1) /\ J01(T) /\ J02(T) /\ J07(T) /\ J08(T) /\ J08p(T) /\ J09(T) /\ J10(T) /\ J11(T) /\ JModel(T)
+Judge(T) == Count(1, 1) /\ J01(T) /\ J02(T) /\ J07(T) /\ J08(T) /\ J08p(T) /\ J09(T) /\ J10(T) /\ J11(T) /\ JModel(T) /\ JNaming(T)
 TInit == tn = 0
 TNext == tn < Len(Traces) /\ tn' = tn + 1 /\ Judge(Traces[tn + 1]) = TRUE
 TraceSpec == TInit /\ [][TNext]_tn
